@@ -690,3 +690,8 @@ NOT_PROVED = [x for x in _np if x is not None]
 from . import srctie
 srctie.wire_loops(globals(), 'C14')
 PROOF_MODULES = PROOF_MODULES + ['Compute.Lemmas.SrcLoops']
+
+# --- deep theorems (Rounding5: float-level bounds in the standard model, wired by the lead)
+PROOF_MODULES = PROOF_MODULES + [m for m in ['Compute.Lemmas.Rounding5', 'Compute.Props.Rounding5'] if m not in PROOF_MODULES]
+REQUIRED_THEOREMS = REQUIRED_THEOREMS + ['Cv.Rounding5.horner_error', 'Cv.Rounding5.horner_error_classical', 'Cv.Rounding5.horner_error_sum', 'Cv.Rounding5.predict_error']
+NOT_PROVED = [('floating-point rounding of the normal-equation solve (theorems are over a field; the float gap is covered by the bit-exact tie plus the cond(V^T V)-scaled oracle); rounding of predict IS proved in the standard model (Props/Rounding5): |Horner(c,v) - p(v)| <= gamma_(2n) sum|a_i||v|^i (gamma_(2n+1) without representable coefficients) for every entry of predict' if str(x).startswith('floating-point rounding of the normal-equation solve') else x) for x in NOT_PROVED]
